@@ -15,7 +15,9 @@ Record tcfg := {
   t_own : option key;                  (* Certificates *)
   t_require_client : bool;             (* ClientAuth = RequireAndVerifyClientCert *)
   t_client_cas : list key;             (* ClientCAs (self-signed one-time certs: the pool is a set of keys) *)
-  t_root_cas : list key                (* RootCAs *)
+  t_root_cas : list key;               (* RootCAs *)
+  t_verify : bool                      (* crypto/tls's own verification of the peer's chain is in force (InsecureSkipVerify
+                                          unset, no VerifyPeerCertificate / VerifyConnection override) *)
 }.
 
 (* what the code does, as found in the source on this run *)
@@ -27,7 +29,8 @@ Record tparams := {
   tp_plugin_requires_client : bool;    (* Serve: ClientAuth RequireAndVerifyClientCert *)
   tp_plugin_pins_client_cas : bool;    (* Serve: ClientCAs = the host's cert from the environment *)
   tp_broker_serves_with_tls : bool;    (* AcceptAndServe gives brokered servers the broker's TLS config *)
-  tp_pools_only_pinned : bool          (* the certificate pools start empty (x509.NewCertPool), not from the system roots *)
+  tp_pools_only_pinned : bool;         (* the certificate pools start empty (x509.NewCertPool), not from the system roots *)
+  tp_standard_verification : bool      (* no tls.Config of the package switches chain verification off or replaces it *)
 }.
 
 (* a pool with the pinned certificates, on top of the system roots when the code starts from those *)
@@ -38,19 +41,22 @@ Definition host_cfg (P : tparams) (announced : option key) : option tcfg :=
   if tp_host_cfg_at_start P then
     Some {| t_own := Some host_key; t_require_client := tp_host_requires_client P;
             t_client_cas := pool P (match announced with Some k => if tp_host_pins_client_cas P then [k] else [] | None => [] end);
-            t_root_cas := pool P (match announced with Some k => if tp_host_pins_root_cas P then [k] else [] | None => [] end) |}
+            t_root_cas := pool P (match announced with Some k => if tp_host_pins_root_cas P then [k] else [] | None => [] end);
+            t_verify := tp_standard_verification P |}
   else
     match announced with
     | Some k => Some {| t_own := Some host_key; t_require_client := tp_host_requires_client P;
                         t_client_cas := pool P (if tp_host_pins_client_cas P then [k] else []);
-                        t_root_cas := pool P (if tp_host_pins_root_cas P then [k] else []) |}
+                        t_root_cas := pool P (if tp_host_pins_root_cas P then [k] else []);
+                        t_verify := tp_standard_verification P |}
     | None => None
     end.
 
 (* the plugin's config when PLUGIN_CLIENT_CERT carried the host's certificate *)
 Definition plugin_cfg (P : tparams) : tcfg :=
   {| t_own := Some plugin_key; t_require_client := tp_plugin_requires_client P;
-     t_client_cas := pool P (if tp_plugin_pins_client_cas P then [host_key] else []); t_root_cas := [host_key] |}.
+     t_client_cas := pool P (if tp_plugin_pins_client_cas P then [host_key] else []); t_root_cas := [host_key];
+     t_verify := tp_standard_verification P |}.
 
 Inductive path :=
 | MainNetRPC | MainGRPC                 (* the plugin's main listener *)
@@ -85,19 +91,31 @@ Definition server_accepts (s : option tcfg) (x : peer) : bool :=
   | Some c, TLSNoCert => negb (t_require_client c)
   | Some c, TLSCert k => if t_require_client c then mem_key k (t_client_cas c) else true
   end.
-(* a TLS client accepts the server iff the server's certificate is in its RootCAs; a plaintext client talks to a plaintext server *)
+(* a TLS client accepts the server iff the certificate whose key the server proves (its leaf) is in the client's
+   RootCAs -- as long as the standard verification is in force; with it switched off or replaced, crypto/tls itself
+   accepts every server that completes the handshake and nothing is assumed about what a callback adds;
+   a plaintext client talks to a plaintext server *)
 Definition client_accepts (c : option tcfg) (s : option tcfg) : bool :=
   match c, s with
   | None, None => true
-  | Some cc, Some sc => match t_own sc with Some k => mem_key k (t_root_cas cc) | None => false end
+  | Some cc, Some sc =>
+      match t_own sc with
+      | Some k => if t_verify cc then mem_key k (t_root_cas cc) else true
+      | None => false
+      end
   | _, _ => false
   end.
+
+(* an impostor plugin: announces the genuine certificate (it is public: printed on stdout), holds another key, sends
+   the announced certificate along behind its own leaf, and lets any client in *)
+Definition impostor_server : tcfg :=
+  {| t_own := Some 8; t_require_client := false; t_client_cas := []; t_root_cas := []; t_verify := false |}.
 
 Definition intruders : list peer := [Plaintext; TLSNoCert; TLSCert 7; TLSCert 8; TLSCert system_key].
 
 (* ---- glue for the family "mtls": input (path peer_code announced) ; obs (answered)
    peer codes: 0 plaintext, 1 TLS no cert, 2 fresh cert, 3 other key same name, 4 a certificate issued by an authority of
-   the machine's trust store, 9 the legitimate peer *)
+   the machine's trust store, 9 the legitimate peer, 10 the HOST's attempt against an impostor server on that path *)
 Definition path_of_Z (z : Z) : path :=
   match z with 0 => MainNetRPC | 1 => MainGRPC | 2 => PluginBrokered | _ => HostBrokered end%Z.
 Definition check_mtls (P : tparams) (inp obs : V) : verdict :=
@@ -109,7 +127,8 @@ Definition check_mtls (P : tparams) (inp obs : V) : verdict :=
           let announced := if ann then Some plugin_key else None in
           let legit_key := match pth with HostBrokered => plugin_key | _ => host_key end in
           let pr := (if Z.eqb x 0 then Plaintext else if Z.eqb x 1 then TLSNoCert else if Z.eqb x 2 then TLSCert 7 else if Z.eqb x 3 then TLSCert 8 else if Z.eqb x 4 then TLSCert system_key else TLSCert legit_key) in
-          let m := if Z.eqb x 9
+          let m := if Z.eqb x 10 then client_accepts (client_cfg P announced pth) (Some impostor_server) else
+                   if Z.eqb x 9
                    then server_accepts (server_cfg P announced pth) pr && client_accepts (client_cfg P announced pth) (server_cfg P announced pth)
                    else server_accepts (server_cfg P announced pth) pr in
           {| v_decoded := true; v_agree := Bool.eqb m ans;
